@@ -33,10 +33,10 @@ CONFIGS["C43"] = dict(
     prop="C43", engine="grants-hist", pkg="internal/server/tables", harness="C43",
     level="exploration",
     level_text="seeded histories of grant / revoke (per user, DSN, table, permission subset) by the administrator interleaved "
-               "with row reads, inserts, updates, deletes and table drops by three users on a restricted and an unrestricted "
-               "DSN, table re-creation, cache purges and time advances past cache lifetimes, through the real router, table "
+               "with row reads, inserts, updates, deletes and table drops by three users on two restricted DSNs (same table "
+               "names) and an unrestricted DSN, table re-creation, cache purges and time advances past cache lifetimes, through the real router, table "
                "routes and handlers, dsns service, permission store (SQLite) and caches; each response and the table contents "
-               "before/after are compared with a model of the grant set: a non-administrator's request on the restricted DSN "
+               "before/after are compared with a model of the grant set: a non-administrator's request on a restricted DSN "
                "may succeed or change data only with the matching grant; administrators, unrestricted DSNs and granted "
                "requests are not refused; grants never carry over to another user, DSN or table (incl. a dropped and "
                "re-created table).",
